@@ -544,6 +544,47 @@ func (m c13) Run(c *core.Ctx) {
 		}
 		c.Nontrivial("each-name " + name)
 	}
+	// references inside statically removed branches. The statement of the property ("every reference to the name is a
+	// compile error") is read literally here; the compiler does not compile a branch whose condition is a literal, so
+	// such a reference is accepted - recorded as a known finding (known_findings.json). What must hold in any case: the
+	// Bytecode holds no reference to the builtin.
+	for di, src := range []string{
+		"if false {\n  return len(\"x\")\n}\nreturn 1",
+		"return true ? 1 : len(\"x\")",
+		"if true {\n  return 1\n} else {\n  return len(\"x\")\n}",
+		"f := func() {\n  if false {\n    return len\n  }\n  return 2\n}\nreturn f()",
+	} {
+		idx++
+		if idx%c.NBatch != c.Batch {
+			continue
+		}
+		src := src
+		if !c.Begin(func() string { return "dead-branch reference\n" + src }) {
+			continue
+		}
+		for _, noopt := range []bool{true, false} {
+			cr := safeCompile([]byte(src), ugo.CompilerOptions{SymbolTable: c13symtab([]string{"len"}), NoOptimize: noopt})
+			c.Count("dead_branch_reference_compiles")
+			w := c13wit{Disabled: []string{"len"}, Why: "dead-branch reference: " + src, Opt: !noopt}
+			switch {
+			case cr.panicv != "":
+				c.Violation("C13|compile-panic|"+cr.ptop, "Compile panics: "+cr.panicv, w)
+			case cr.err != nil:
+				if strings.Contains(cr.err.Error(), "unresolved reference \"len\"") {
+					c.Count("dead_branch_reference_rejected")
+				} else {
+					c.Violation("C13|dead-branch-other-error", "a script whose only reference to the disabled builtin is in a removed branch fails with another error: "+cr.err.Error(), w)
+				}
+			default:
+				if names, _ := scanGetBuiltin(cr.bc); names["len"] > 0 {
+					c.Violation("C13|getbuiltin-in-bytecode|dead-branch|len", "the Bytecode references the disabled builtin len", w)
+				} else {
+					c.Violation("C13|known-shape|reference-in-removed-branch-accepted", "a reference to the disabled builtin \"len\" inside a statically removed branch is not a compile error (the Bytecode holds no reference to it)", w)
+				}
+			}
+		}
+		c.Nontrivial(fmt.Sprintf("dead-branch %d", di))
+	}
 	// fixed probes: shadowing and module cases
 	probes := []*Program{
 		{Src: "global L\nlen := func(x) { return 99 }\nreturn len(\"abc\")"},
